@@ -22,8 +22,8 @@ theorem window_exp_correct {M : Type} [Monoid M] (b : M) (ep : List Nat) (w : Na
   · intro r k i _ hr; rw [hr, ← pow_add]
   · intro i _; rfl
 
--- non-vacuity: e = 0x1_0000_0000_0000_00b5 (two limbs), window 3, in the monoid (ℕ, ·) with b = 1 … and
--- a computed instance in (ℕ,+)-free form: 3^181 with window 4.
+-- non-vacuity: 3^181 in (ℕ, ·) with window 4 (181 = 0b10110101: windows 1011, 0101 → 101);
+-- a two-limb exponent has 65 bits and gets window size 3
 example : windowExp (fun x => x * x) (fun x y => x * y) (fun i => 3 ^ (2 * i + 1)) [181] (sizeinbase2 [181]) 4
     = 3 ^ 181 := by decide +kernel
 example : (sizeinbase2 [181, 1], win_size 65) = (65, 3) := by decide
@@ -435,5 +435,16 @@ theorem powmSpec_char (b e m : Int) :
     | some i => rw [hinv] at hn; simp at hn
 
 example : powmSpec 3 (-2) 7 = some 4 ∧ (4 * 3 ^ 2) % 7 = 1 := by decide +kernel
+
+
+/-- mpn_pow_1 (mpn/generic/pow_1.c, value-level model with the C's size bookkeeping): for every base in
+    normal form and every exponent the `rn` returned limbs hold `b^exp` exactly and `rn` is the normalised
+    size (`B^(rn-1) ≤ value`). -/
+theorem pow_1_spec (bp : List Nat) (exp : Nat) (hb : Norm bp) (hne : bp ≠ []) :
+    val (mpn_pow_1 bp exp) = val bp ^ exp ∧ Limbs (mpn_pow_1 bp exp) ∧
+    B ^ ((mpn_pow_1 bp exp).length - 1) ≤ val (mpn_pow_1 bp exp) :=
+  mpn_pow_1_spec bp exp hb hne
+
+example : mpn_pow_1 [3, 4] 5 = toLimbs 6 (val [3, 4] ^ 5) ∧ mpn_pow_1 [3] 0 = [1] := by decide +kernel
 
 end Mpir.Powm
